@@ -225,4 +225,20 @@ def malvar (sl : Site → Slc × Slc) (tbl : Chan → Site → Src) (m n : Nat) 
     | none => img R C
     | some k => convolve5 m n img k malvarDivisor R C
 
+/-! ### safe white-balance limiting -/
+section safe
+variable {K : Type} [Num K] [LT K] [DecidableLT K]
+
+/-- one step of the limiting loop: the running descaling ratio after looking at a plane with maximum `mx`
+and saturation level `sat` -/
+def safeStep (ratio mx sat : K) : K :=
+  if (mx / sat > Num.ofInt 1 ∧ mx / sat > ratio) then mx / sat else ratio
+
+/-- the descaling ratio after all planes `(max, saturation)` -/
+def safeRatio (step : K → K → K → K) : List (K × K) → K → K
+  | [], r => r
+  | (mx, sat) :: rest, r => safeRatio step rest (step r mx sat)
+
+end safe
+
 end Model.C16
